@@ -422,9 +422,13 @@ func (c *ctxConn) Read(b []byte) (n int, err error) {
 		n, err = c.conn.Read(b)
 		if err != nil {
 			if netErr, ok := err.(net.Error); ok && netErr.Timeout() && netErr.Temporary() {
+				if n > 0 {
+					// Deliver the bytes that were read before the timeout
+					return n, nil
+				}
 				continue
 			}
-			return 0, err
+			return n, err
 		}
 
 		return n, nil
@@ -434,7 +438,7 @@ func (c *ctxConn) Read(b []byte) (n int, err error) {
 func (c *ctxConn) Write(b []byte) (n int, err error) {
 	for {
 		if err = c.writeCtx.Err(); err != nil {
-			return 0, err
+			return n, err
 		}
 
 		deadline := time.Now().Add(c.writeTimeout)
@@ -445,15 +449,18 @@ func (c *ctxConn) Write(b []byte) (n int, err error) {
 		}
 
 		if err = c.conn.SetWriteDeadline(deadline); err != nil {
-			return 0, err
+			return n, err
 		}
 
-		n, err = c.conn.Write(b)
+		var written int
+		// Resume after the bytes already written by a previous (timed out) attempt
+		written, err = c.conn.Write(b[n:])
+		n += written
 		if err != nil {
 			if netErr, ok := err.(net.Error); ok && netErr.Timeout() && netErr.Temporary() {
 				continue
 			}
-			return 0, err
+			return n, err
 		}
 
 		return n, nil
